@@ -1,9 +1,8 @@
 CONSTANT NMsg = 4
 CONSTANT Cap = 0
 CONSTANT WaitForWriters = TRUE
-CONSTANT WriteFailsAt = 0
+CONSTANT WriteFailsAt = 2
 SPECIFICATION Spec
-INVARIANT AllWrittenAtReturn
 INVARIANT WrittenPrefix
 PROPERTY Returns
 CHECK_DEADLOCK FALSE
